@@ -214,29 +214,26 @@ bool splinetable<Alloc>::read_fits_core(fitsfile* fits, const std::string& fileP
 				
 				keylen = strlen(key) + 1;
 				valuelen = strlen(value) + 1;
+				//remove stupid quotes mandated by FITS, but not removed by cfitsio on reading
+				//Note that we do not attempt to remove whitespace, because we cannot 
+				//distinguish whitespace included by the user and whitespace pointlessly
+				//added by FITS.
+				//The stored value must be allocated with exactly the size with which it
+				//will later be deallocated (its length plus the terminator).
+				const char* valuestart = value;
+				if(valuelen>1 && value[0]=='\''){
+					valuestart++; //remove an opening quote
+					valuelen--;
+					if(valuelen>1 && valuestart[valuelen-2]=='\'') //remove a trailing quote also
+						valuelen--;
+				}
 				aux[i] = allocate<char_ptr>(2);
 				aux[i][0] = aux[i][1] = NULL;
 				aux[i][0] = allocate<char>(keylen);
 				aux[i][1] = allocate<char>(valuelen);
 				std::copy(key,key+keylen,aux[i][0]);
-				//remove stupid quotes mandated by FITS, but not removed by cfitsio on reading
-				//Note that we do not attempt to remove whitespace, because we cannot 
-				//distinguish whitespace included by the user and whitespace pointlessly
-				//added by FITS.
-				if(valuelen>1 && value[0]=='\''){
-					if(valuelen>2 && value[valuelen-2]=='\''){ //remove a trailing quote also
-						std::copy(value+1,value+valuelen-2,aux[i][1]);
-						aux[i][1][valuelen-3]='\0';
-					}
-					else{ //just remove an opening quote
-						std::copy(value+1,value+valuelen-1,aux[i][1]);
-						aux[i][1][valuelen-2]='\0';
-					}
-				}
-				else{
-					std::copy(value,value+valuelen,aux[i][1]);
-					aux[i][1][valuelen-1]='\0';
-				}
+				std::copy(valuestart,valuestart+valuelen-1,aux[i][1]);
+				aux[i][1][valuelen-1]='\0';
 				i++;
 			}
 		} else {
